@@ -47,13 +47,14 @@ def tlc_trace(spec, cfg, trace, metadir, timeout=900, extra_env=None):
     env = dict(os.environ, TRACE=trace, JAVA_TOOL_OPTIONS=JOPTS)
     if extra_env:
         env.update(extra_env)
+    env["JAVA_TOOL_OPTIONS"] = env["JAVA_TOOL_OPTIONS"] + " -Xmx3g"
     cmd = ["timeout", str(timeout), "tlc", "-workers", "1", "-metadir", metadir, "-cleanup", "-noGenerateSpecTE",
            "-config", cfg, spec]
     p = subprocess.run(cmd, cwd=SPEC, env=env, capture_output=True, text=True)
     shutil.rmtree(metadir, ignore_errors=True)
     return p.returncode, p.stdout
 
-RUNVIOL = re.compile(r'<<"RUNVIOL", (\d+), \{([^}]*)\}>>')
+RUNVIOL = re.compile(r'<<"RUNVIOL", (\d+), \{([^}]*)\}, \{([^}]*)\}, \{([^}]*)\}>>')
 
 def observe(trace_files, workdir, njvm=16):
     """Observer over each trace file. Returns ({run: set(props)}, lines, stats)."""
@@ -73,6 +74,6 @@ def observe(trace_files, workdir, njvm=16):
                 raise ToolError(f"Observer could not walk {tf} (rc={rc}):\n" + out[-3000:])
         for m in RUNVIOL.finditer(out):
             run = int(m.group(1))
-            props = set(x.strip().strip('"') for x in m.group(2).split(",") if x.strip())
-            viol.setdefault(run, set()).update(props)
+            f = lambda g: set(x.strip().strip('"') for x in g.split(",") if x.strip())
+            viol[run] = (f(m.group(2)), f(m.group(3)), f(m.group(4)))
     return viol, total_lines
